@@ -174,7 +174,7 @@ pub fn to_response(m: &Msg) -> Response<String> {
         _ => unreachable!(),
     }
 }
-fn expected_kind(k: io::ErrorKind, serde: bool) -> io::ErrorKind {
+pub fn expected_kind(k: io::ErrorKind, serde: bool) -> io::ErrorKind {
     if !serde || PORTABLE.contains(&k) {
         k
     } else {
